@@ -40,7 +40,7 @@ G = {}
 
 
 def setup(tier):
-    tk.get(("ac",))
+    tk.get(("ac", "hs", "ref"))
     G["courts"] = inv.court_strings()
     G["skip"] = {s for s in inv.all_strings() if s.endswith(",") or s.endswith(" at")}
     from eyecite.tokenizers import NOMINATIVE_REPORTER_NAMES
@@ -51,10 +51,13 @@ def setup(tier):
 # ----------------------------------------------------------------------------------------- helpers
 
 
+_TOK = {"name": "ac"}
+
+
 def get(text):
     from eyecite import get_citations
 
-    return call(get_citations, text)
+    return call(get_citations, text, tokenizer=tk.get((_TOK["name"],))[_TOK["name"]])
 
 
 def neutral(text):
@@ -114,7 +117,15 @@ def of_kind(cites, name):
 def evaluate(case):
     form = case["form"]
     res = Res()
-    res.label("form:" + form)
+    _TOK["name"] = case.get("tokenizer", "ac")
+    res.label("form:" + form, "tokenizer:" + _TOK["name"])
+    try:
+        return _evaluate(case, form, res)
+    finally:
+        _TOK["name"] = "ac"
+
+
+def _evaluate(case, form, res):
     if form in ("min", "min-short", "min-short-pin"):
         return eval_minimal(case, res)
     if form == "example":
@@ -502,6 +513,8 @@ def eval_law(case, res):
     c0 = len(s)
     s += ex
     c1 = len(s)
+    sub = case.get("subsection") or ""
+    s += sub
     if inner:
         s += f" ({inner})"
     if paren:
@@ -512,15 +525,26 @@ def eval_law(case, res):
     if isinstance(cites, Raised):
         res.label("raised")
         return res
-    hits = [c for c in cites if type(c).__name__ == "FullLawCitation"]
-    res.nontrivial = bool(inner) + bool(paren) >= 1
-    others = [c for c in cites if type(c).__name__ not in ("FullLawCitation", "UnknownCitation")]
-    if len(hits) != 1 or others:
+    # ground truth for "how is the written statute read": the pattern-level readings (Python re on the pattern
+    # strings, independent of the tokenizers). Exactly one citation pattern must read the text, starting at the
+    # written example; otherwise the case is outside the statement's quantifier and counted.
+    rd = sorted(r for r in readings(s, c0, c1) if r[0] == "CitationToken")
+    spans = {(r[1], r[2]) for r in rd}
+    if len(spans) != 1 or next(iter(spans))[0] != c0:
         res.label("excluded:example-not-read-as-one-statute")
-        res.nontrivial = False
+        return res
+    exp_span = next(iter(spans))
+    hits = [c for c in cites if type(c).__name__ == "FullLawCitation"]
+    res.nontrivial = bool(inner) + bool(paren) + bool(sub) >= 1
+    others = [c for c in cites if type(c).__name__ not in ("FullLawCitation", "UnknownCitation", "ReferenceCitation")]
+    if len(hits) != 1 or others:
+        res.v("law:count-or-kind", f"{s!r} -> {[(type(c).__name__, c.matched_text()) for c in cites]}")
         return res
     c = hits[0]
-    if c.span() != (c0, c1):  # the example's own template absorbs the following character(s)
+    if c.span() != exp_span:
+        res.v("law:span", f"{s!r}: span {c.span()}, the pattern reads {exp_span}")
+        return res
+    if exp_span[1] != c1:  # the example's own template absorbs the following character(s)
         res.label("excluded:example-read-with-different-extent")
         res.nontrivial = False
         return res
@@ -532,6 +556,8 @@ def eval_law(case, res):
                 res.v(f"law:{field}", f"{s!r}: {field} {got!r}, written {want!r}")
         if year and c.year != expect_year(year):
             res.v("law:year-number", f"{s!r}: year {c.year!r}")
+    if sub and (m.pin_cite or "") != sub.strip():
+        res.v("law:subsection-pin", f"{s!r}: pin_cite {m.pin_cite!r}, written subsection {sub!r}")
     if (inner or not inner) and paren and m.parenthetical != paren:
         res.v("law:parenthetical", f"{s!r}: {m.parenthetical!r}, written {paren!r}")
     f0, f1 = c.full_span()
@@ -667,7 +693,8 @@ def _id(draw):
 @st.composite
 def _law(draw):
     exs = [e for e, s in inv.examples() if s == "laws"]
-    case = {"form": "law", "example": draw(st.sampled_from(exs)), "prose": draw(st.integers(0, 4)), "term": draw(st.integers(0, 2)), "paren": draw(_paren)}
+    case = {"form": "law", "example": draw(st.sampled_from(exs)), "prose": draw(st.integers(0, 4)), "term": draw(st.integers(0, 2)), "paren": draw(_paren),
+            "subsection": draw(st.sampled_from(["", "", "(a)", "(a)(2)", "(1)", "(b)(1)(A)", " et seq."])), "tokenizer": draw(st.sampled_from(["ac", "ac", "hs", "ref"]))}
     k = draw(st.integers(0, 5))
     if k >= 1:
         case["year"] = str(draw(st.integers(1800, TODAY)))
@@ -699,7 +726,7 @@ def _minimal_items():
 
 
 def _example_items():
-    return [{"form": "example", "example": e, "source": s} for e, s in inv.examples()]
+    return [{"form": "example", "example": e, "source": s, "tokenizer": t} for e, s in inv.examples() for t in ("ac", "hs", "ref")]
 
 
 def _court_items():
